@@ -113,18 +113,6 @@ pub fn c14_exp2_range() {
     reached();
 }
 
-//@ id=C14 tier=quick to=900 cfg=std exh=1 stub=1 stubs="TwoFloat::exp -> havoc (not reached for a zero argument; keeps the other branch out of the formula)" desc="exp_m1(+-0) == 0 exactly (ground, pinned; real polynomial branch)"
-#[cfg_attr(all(kani, feature = "stubs"), kani::proof)]
-#[cfg_attr(all(kani, feature = "stubs"), kani::unwind(16))]
-#[cfg_attr(all(kani, feature = "stubs"), kani::stub(twofloat::TwoFloat::exp, crate::uf::havoc_unary))]
-pub fn c14_expm1_zero() {
-    let r = gtf(0.0, 0.0).exp_m1();
-    assert!(r.hi() == 0.0 && r.lo() == 0.0);
-    let r = gtf(-0.0, 0.0).exp_m1();
-    assert!(r.hi() == 0.0 && r.lo() == 0.0);
-    reached();
-}
-
 /// exp2(k) == (2^k, 0) exactly, ground on the real code (polynomial, nine squarings, mul_pow2)
 pub fn exp2_int(k: i32) {
     let r = gtf(k as f64, 0.0).exp2();
